@@ -113,6 +113,34 @@ def check_model(ctx, name):
     if not all_close(got, want, rel=1e-13) or not all_close(got_l, want, rel=1e-13):
         ctx.violation('array', '%s with integer-typed parameters %r: array call %r, element by element %r' % (
             name, ip, got, want), dict(case, int_params=ip))
+    # integer-typed lags (np.arange(...) distances, raster units, Python ints): same value as the float lag
+    rmax = int(min(max(2.0, 2.0 * r), 60000))
+    ints = sorted(set([0, 1, 2, rmax // 3, rmax // 2, rmax - 1, rmax] + [int(x) for x in rng.integers(0, rmax + 1, size=4)]))
+    with quiet():
+        ref = [float(f(float(k), *p)) for k in ints]
+        for dt in ('pyint', 'int64', 'int32', 'uint16', 'uint32', 'uint8'):
+            ks = [k for k in ints if dt != 'uint8' or k < 256]
+            rf = [ref[ints.index(k)] for k in ks]
+            try:
+                if dt == 'pyint':
+                    got_s = [float(f(int(k), *p)) for k in ks]
+                    got_a = got_s
+                else:
+                    got_s = [float(f(getattr(np, dt)(k), *p)) for k in ks]
+                    got_a = np.asarray(f(np.array(ks, dtype=dt), *p), dtype=float).tolist()
+            except Exception as e:
+                ctx.violation('integer-lag', '%s with %s lags raises %s: %s' % (name, dt, type(e).__name__, str(e)[:100]),
+                              dict(case, lag_dtype=dt), signature=dict(kind='integer-lag', model=name))
+                break
+            ctx.count('int_typed_lags')
+            if not all_close(got_s, rf, rel=1e-12, abs_=1e-13 * top) or not all_close(got_a, rf, rel=1e-12, abs_=1e-13 * top):
+                bad = next(k for k, a, c, w in zip(ks, got_s, got_a, rf) if not close(a, w, rel=1e-12, abs_=1e-13 * top)
+                           or not close(c, w, rel=1e-12, abs_=1e-13 * top))
+                i = ks.index(bad)
+                ctx.violation('integer-lag', '%s(h=%d as %s, %r): scalar call %r, array call %r, with the float lag %r' % (
+                    name, bad, dt, p, got_s[i], got_a[i], rf[i]), dict(case, lag_dtype=dt, lag=bad),
+                    signature=dict(kind='integer-lag', model=name))
+                break
     # translator validation: Float twin of the generated definition
     if name != 'matern':
         for h, v in list(zip(hs, vals))[::3]:
@@ -221,7 +249,7 @@ def run(ctx):
     for k in range(ctx.n(25, 300)):
         for name in SINGLE:
             check_model(ctx, name)
-    for k in range(ctx.n(12, 120)):
+    for k in range(ctx.n(24, 300)):
         check_sum(ctx)
     ctx.lean.flush()
 
